@@ -333,6 +333,8 @@ func C11(ctx *core.Ctx) {
 	c11ParentDirPaths(ctx, cc)
 	c11InheritedMembers(ctx, cc)
 	c11ModelReadOnly(ctx, cc)
+	c11ExitStatus(ctx, cc)
+	c11PerFileInField(ctx, cc)
 	ctx.Rule("C11.R18", "an emitted file holds this run's text only: a file opened with O_CREATE for writing is opened with O_TRUNC (a shorter descriptor written over a longer one of an earlier run is not well-formed)", 1)
 	if entry := cc.FnOpt("compiler", "Compile"); entry != nil {
 		truncateOnCreate(ctx, cc, ssax.Cone([]*ssa.Function{entry}, cc.Resolver(), true), entry, "C11.R18")
